@@ -46,6 +46,8 @@ def tr (s : State) : List Event × Nat := (s.trace, s.ncbTotal)
   unfold udpSendmsg; split; · rfl
   split; · rfl
   simp
+@[simp] theorem tr_pipeConnectBad (s : State) (id : Nat) : tr (pipeConnectBad s id) = tr s := by
+  unfold pipeConnectBad; simp only; rw [tr_ioFeed]; rfl
 @[simp] theorem tr_makeClosePending (s : State) (id : Nat) : tr (makeClosePending s id) = tr s := rfl
 @[simp] theorem tr_initInotify (s : State) : tr (initInotify s) = tr s := by
   unfold initInotify; split; · rfl
